@@ -6,9 +6,11 @@
 #define V_STUB_MEMZERO 1
 #define V_MEMZERO_SILENT 1
 #include "transcript.h"
+/* assumed contract of sodium_is_zero (proved for the real body in C14) */
+int sodium_is_zero(const unsigned char *n, const size_t nlen) { size_t i; unsigned char d = 0; for (i = 0; i < nlen; i++) d |= n[i]; return 1 & ((d - 1) >> 8); }
 #include "crypto_core/ed25519/ref10/ed25519_ref10.c"
 #include "crypto_scalarmult/curve25519/ref10/x25519_ref10.c"
-struct vin_t { unsigned char s[32]; uint64_t h[5]; };
+struct vin_t { unsigned char s[32]; uint64_t h[5], g[5]; unsigned b; };
 struct vin_t nondet_vin(void);
 struct vin_t vin;
 
@@ -54,6 +56,56 @@ void hf_fe_codec(void)
     fe25519_tobytes(back, f);
     VASSERT("decode then encode: a non-canonical input (>= p) comes back reduced", big_of_bytes(back, 32) == S % P);
     VREACH("hf_fe_codec");
+}
+/* linear field operations of fe_51 against integers modulo p = 2^255-19, for every pair of limb vectors below 2^54
+ * (what additions of multiplication results can produce); mul32 with the ladder's constant 121666 */
+/* x mod p for x < 2^qbits * p, by peeling the quotient bits (no divider circuit) */
+static big mod_small_(big x, int qbits) { big P = ((big) 1 << 255) - 19; int i; for (i = qbits - 1; i >= 0; i--) if (x >= (P << i)) x -= (P << i); return x; }
+/* x == y + k*p for some lo <= k <= hi (constant range: a handful of comparisons with constants) */
+static int small_multiple_(big x, big y, int lo, int hi) { big P = ((big) 1 << 255) - 19, m = P * lo; int k, ok = 0; for (k = lo; k <= hi; k++) { if (x == y + m) ok = 1; m += P; } return ok; }
+static big val_(const fe25519 f) { return (big) f[0] + ((big) f[1] << 51) + ((big) f[2] << 102) + ((big) f[3] << 153) + ((big) f[4] << 204); }
+void hf_fe_linear(void)
+{
+    VIN_GET();
+    fe25519 f, g, h, f2, g2; int i; big F, G; unsigned b = vin.b & 1;
+    for (i = 0; i < 5; i++) { VASSUME(vin.h[i] < (1ULL << 54) && vin.g[i] < (1ULL << 54)); f[i] = vin.h[i]; g[i] = vin.g[i]; }
+    F = val_(f); G = val_(g);
+    fe25519_add(h, f, g);
+    VASSERT("fe25519_add: value = f + g exactly (no reduction, no limb overflow)", val_(h) == F + G && h[0] == f[0] + g[0] && h[4] == f[4] + g[4]);
+    for (i = 0; i < 5; i++) { f2[i] = f[i]; g2[i] = g[i]; }
+    fe25519_cswap(f2, g2, b);
+    VASSERT("fe25519_cswap: exchanges the two elements exactly when b == 1", v_eq((unsigned char *) f2, (unsigned char *) (b ? g : f), 40) && v_eq((unsigned char *) g2, (unsigned char *) (b ? f : g), 40));
+    for (i = 0; i < 5; i++) f2[i] = f[i];
+    fe25519_cmov(f2, g, b);
+    VASSERT("fe25519_cmov: f := g exactly when b == 1", v_eq((unsigned char *) f2, (unsigned char *) (b ? g : f), 40));
+    VASSERT("fe25519_isnegative = low bit of the canonical value; fe25519_iszero = (value mod p == 0)", fe25519_isnegative(f) == (int) (mod_small_(F, 8) & 1) && fe25519_iszero(f) == (mod_small_(F, 8) == 0));
+    fe25519_1(h); VASSERT("fe25519_1 = 1", val_(h) == 1);
+    fe25519_0(h); VASSERT("fe25519_0 = 0", val_(h) == 0);
+    fe25519_copy(h, f); VASSERT("fe25519_copy", val_(h) == F && h[0] == f[0]);
+    VREACH("hf_fe_linear");
+}
+void hf_fe_sub(void)
+{
+    VIN_GET();
+    fe25519 f, g, h; int i; big F, G;
+    for (i = 0; i < 5; i++) { VASSUME(vin.h[i] < (1ULL << 54) && vin.g[i] < (1ULL << 54)); f[i] = vin.h[i]; g[i] = vin.g[i]; }
+    F = val_(f); G = val_(g);
+    fe25519_sub(h, f, g);
+    VASSERT("fe25519_sub: value congruent to f - g modulo p, no limb underflow, limbs below 2^55", small_multiple_(val_(h) + G, F, 2, 20) && h[0] < (1ULL << 55) && h[1] < (1ULL << 55) && h[2] < (1ULL << 55) && h[3] < (1ULL << 55) && h[4] < (1ULL << 55));
+    fe25519_neg(h, f);
+    VASSERT("fe25519_neg: value congruent to -f modulo p", mod_small_(val_(h) + F, 8) == 0);
+    VREACH("hf_fe_sub");
+}
+/* not registered: the SAT back end did not finish this one in 400 s (constant multiplication through 128-bit products) */
+void hf_fe_mul32(void)
+{
+    VIN_GET();
+    fe25519 f, h; int i; big F;
+    for (i = 0; i < 5; i++) { VASSUME(vin.h[i] < (1ULL << 54)); f[i] = vin.h[i]; }
+    F = val_(f);
+    fe25519_mul32(h, f, 121666);
+    VASSERT("fe25519_mul32 with the ladder constant 121666: value congruent to 121666 * f modulo p, limbs below 2^52", F * 121666 >= val_(h) && mod_small_(F * 121666 - val_(h), 24) == 0 && h[0] < (1ULL << 52) && h[1] < (1ULL << 51) && h[2] < (1ULL << 51) && h[3] < (1ULL << 51) && h[4] < (1ULL << 51));
+    VREACH("hf_fe_mul32");
 }
 #endif
 /* ---- ladder structure: the field operations are replaced (goto-instrument --replace-calls) by stubs; the conditional swap
